@@ -54,6 +54,8 @@ def run(F, rep, tier):
     # tuples of different lengths do not unify (in either direction)
     import core
     core.borrow(rep, c03.obligations, lambda o: "tuple-length" in o["key"], F)
+    # .. and the operator checkers recurse element-wise only into tuples of the same length
+    core.borrow(rep, lambda F_, r_: c03.accept(F_, r_, "ACCEPT"), lambda o: o["key"].endswith("|tuple-length-guard"), F)
 
 
 def blob_arm(F, rep):
